@@ -38,9 +38,7 @@ func checkC06(e *Env) {
 		gate.CallOK("S.sig.err", "invoke:signingalgorithm.Verifier.Verify", tSSVerif, tSSMsg, "param:vs.Sig"),
 		gate.CallBool("S.sig.ok", "invoke:signingalgorithm.Verifier.Verify", true, tSSVerif, tSSMsg, "param:vs.Sig"),
 		gate.CallOK("S.decode", "signature.decodeSignedSubset", "param:vs.Signed"),
-		either("S.authsha", "bytes.Equal(exact(ss.AuthSha256), exact(cert.CertSha256()))",
-			gate.CallBool("", "bytes.Equal", true, tSS+".AuthSha256", "call:(*certurl.AugmentedCertificate).CertSha256("+tAuth+")"),
-			gate.CallBool("", "bytes.Equal", true, "call:(*certurl.AugmentedCertificate).CertSha256("+tAuth+")", tSS+".AuthSha256")),
+		bytesEqual("S.authsha", "bytes.Equal(exact(ss.AuthSha256), exact(cert.CertSha256()))", tSS+".AuthSha256", "call:(*certurl.AugmentedCertificate).CertSha256("+tAuth+")"),
 		// completeness gate of decodeSignedSubset (established through its summary)
 		gate.Cmp("S.complete.validity-url", "alloc:signature.SignedSubset.ValidityUrl", token.NEQ, "const:nil"),
 		gate.Cmp("S.complete.auth-sha256", "alloc:signature.SignedSubset.AuthSha256", token.NEQ, "const:nil"),
@@ -80,9 +78,7 @@ func checkC06(e *Env) {
 		gate.Cmp("X.novariants", "len("+tFind+"#0.VariantsValue)", token.EQL, "const:0"),
 		gate.Cmp("X.onehash", "len("+tFind+"#0.Hashes)", token.EQL, "const:1"),
 		gate.CallOK("X.hdrsha.ok", "(bundle.Response).HeaderSha256", "param:e.Response"),
-		either("X.hdrsha", "bytes.Equal(exact(HeaderSha256(e.Response)), exact(rh.HeaderSha256))",
-			gate.CallBool("", "bytes.Equal", true, tHdrSha+"#0", tFind+"#0.Hashes[const:0].HeaderSha256"),
-			gate.CallBool("", "bytes.Equal", true, tFind+"#0.Hashes[const:0].HeaderSha256", tHdrSha+"#0")),
+		bytesEqual("X.hdrsha", "bytes.Equal(exact(HeaderSha256(e.Response)), exact(rh.HeaderSha256))", tHdrSha+"#0", tFind+"#0.Hashes[const:0].HeaderSha256"),
 		either("X.integrity", "integrity identifier equals the version's",
 			gate.Cmp("", "call:(mice.Encoding).IntegrityIdentifier("+tBMice+")", token.EQL, tFind+"#0.Hashes[const:0].PayloadIntegrityHeader")),
 		gate.Cmp("X.digest", tBDigest, token.NEQ, `const:""`),
